@@ -48,8 +48,8 @@ theorem first_dig (Y : Nat) (rest : List Char) : ∃ c cs, natDigits Y ++ rest =
   | nil => exact absurd h (natDigits_ne_nil Y)
   | cons c cs => exact ⟨c, cs ++ rest, rfl, natDigits_isDig Y c (by rw [h]; exact List.mem_cons_self)⟩
 
-theorem weight_month_year : ¬ unitWeight DUnit.month > unitWeight DUnit.year := by decide +kernel
-theorem weight_month_month : ¬ unitWeight DUnit.month > unitWeight DUnit.month := by decide +kernel
+theorem weight_month_year : finerThanDate DUnit.year DUnit.month = false := by decide +kernel
+theorem weight_month_month : finerThanDate DUnit.month DUnit.month = false := by decide +kernel
 
 theorem one_ne_12 : ¬ ((1 : Int) = 12) := by decide
 
@@ -78,10 +78,10 @@ theorem text_parse_month (Y M : Nat) (n : Int) (hn : 1 ≤ n) (h1 : 1000 ≤ Y) 
       simp only [List.append_assoc, List.cons_append, List.nil_append] at h
       exact h
 
-theorem weight_year_year : ¬ unitWeight DUnit.year > unitWeight DUnit.year := by decide +kernel
-theorem weight_day_day : ¬ unitWeight DUnit.day > unitWeight DUnit.day := by decide +kernel
-theorem weight_week_week : ¬ unitWeight DUnit.week > unitWeight DUnit.week := by decide +kernel
-theorem weight_weekday_weekday : ¬ unitWeight DUnit.weekday > unitWeight DUnit.weekday := by decide +kernel
+theorem weight_year_year : finerThanDate DUnit.year DUnit.year = false := by decide +kernel
+theorem weight_day_day : finerThanDate DUnit.day DUnit.day = false := by decide +kernel
+theorem weight_week_week : finerThanDate DUnit.week DUnit.week = false := by decide +kernel
+theorem weight_weekday_weekday : finerThanDate DUnit.weekday DUnit.weekday = false := by decide +kernel
 
 theorem no_colon_y (Y : Nat) : ':' ∉ natDigits Y :=
   fun hm => (natDigits_isDig Y _ hm).ne_colon rfl
